@@ -266,7 +266,7 @@ class Walker:
             return ("pylist",) + tuple(self.visit(x, f"{path}[{i}]", lambda x2, v=v, i=i: v.__setitem__(i, x2)) for i, x in enumerate(v))
         if isinstance(v, (SrcMethod, GenMethod, ListMethod, DictMethod, CMMethod)):
             return ("method", type(v).__name__, v.name)
-        if isinstance(v, PropertyCall):
+        if isinstance(v, (PropertyCall, DescriptorCall)):
             return ("propcall",)
         if isinstance(v, EnvAwaitable):
             return ("envaw", v.name, v.awaited)
@@ -799,6 +799,20 @@ class Verifier:
             return ("raise", e)
         if ev.kind == "Call":
             fn = ev.payload[0]
+            if job.opts.get("ghost_cp") and fn.name == "getter" and "ghost" in self.impl_i.roots:
+                from pyvc.interp import mk_int, as_int
+                g = self.impl_i.roots["ghost"]
+                if job.opts.get("cp_lock"):
+                    self.prove(ctx, f"{job.name}/getter-runs-at-most-once-per-cached-value", "og-inv", as_int(g["done"]) == 0,
+                               detail="the getter is started although a run for this placeholder already completed (the cached value would be computed twice)")
+                    self.prove(ctx, f"{job.name}/getter-runs-under-the-lock", "og-inv", any(cm.held > 0 for cm in env.cms.values()),
+                               detail="the getter is started without holding the placeholder's lock")
+                runner = next((fr.env.get("self") for fr in reversed(self.impl_i.frames) if fr.name == "_get_attribute"), None)
+                inst = self.impl_i.roots.get("inst1")
+                if inst is not None:
+                    self.prove(ctx, f"{job.name}/getter-starts-for-the-published-placeholder", "og-inv", runner is not None and inst.f.get("data") is runner,
+                               detail="the getter is started through a placeholder that is not (or no longer) the one stored on the instance: accesses during this run get a different placeholder and a second run starts for the same cached value")
+                g["runs"] = mk_int(as_int(g["runs"]) + 1)
             if job.opts.get("ghost_lru") and "ghost" in self.impl_i.roots:
                 from pyvc.interp import mk_int, as_int
                 g = self.impl_i.roots["ghost"]
@@ -815,6 +829,10 @@ class Verifier:
                         aw.call_args = tuple(ev.payload[1])
                     self.trace.append((d, f"ret awaitable of {v.t}"))
                     return ("ret", aw)
+                if kind == "cm":
+                    cmo = env.cm(f"{fn.name}#{len(env.cms)}", "async")
+                    self.trace.append((d, f"ret {cmo.name}"))
+                    return ("ret", cmo)
                 if kind == "envgen":
                     g = EnvGen(f"{fn.name}{len(env.gens)}")
                     env.gens[g.name] = g
@@ -861,6 +879,9 @@ class Verifier:
             if c == "ret":
                 pl = getattr(ev.payload[0], "payload", None) if ev.kind == "Await" else None
                 v = pl if pl is not None else Opaque(ctx.fresh(Val, "awaited"))
+                if job.opts.get("ghost_cp") and ev.kind == "Await":
+                    from contracts.jobs_cached_property import returned
+                    ctx.assume(returned(v.t))
                 if job.opts.get("ghost_lru") and getattr(ev.payload[0], "call_args", None):
                     from contracts.jobs_lru import produced
                     ctx.assume(produced(ev.payload[0].call_args[0].t, v.t))
@@ -872,6 +893,9 @@ class Verifier:
             return ("raise", e)
         if ev.kind == "CM":
             cm, op, args = ev.payload
+            hook = job.opts.get("at_suspension")
+            if hook is not None:
+                hook(self, ctx, ev)
             d = f"{cm.name}.{op}({','.join(describe(x) for x in args)})"
             if op == "enter":
                 opts = ["ret", "raise"]
@@ -1003,6 +1027,8 @@ class Verifier:
             return a is b or (a.cls == b.cls and a.origin == "lib" and b.origin == "lib")
         if isinstance(a, ExcClass) and isinstance(b, ExcClass):
             return a.name == b.name
+        if isinstance(a, Obj) and isinstance(b, Sentinel):
+            return getattr(a, "tag", None) == b.name     # the user's instance, represented by a token in the spec
         if isinstance(a, Sentinel) and isinstance(b, Sentinel):
             return a.name == b.name
         if isinstance(a, dict) and isinstance(b, dict):
